@@ -1,0 +1,11 @@
+//go:build verif
+
+package fluentdforward
+
+// SetChunkLimitsForVerif overrides the chunk size and record limits (production: 7 MiB, unlimited records) so that
+// verification harnesses can reach chunk roll-over with small inputs. It returns the previous values.
+func SetChunkLimitsForVerif(maxBytes, maxRecords int) (int, int) {
+	oldBytes, oldRecords := chunkMaxSizeBytes, chunkMaxRecords
+	chunkMaxSizeBytes, chunkMaxRecords = maxBytes, maxRecords
+	return oldBytes, oldRecords
+}
